@@ -1,4 +1,5 @@
 import Proofs.Invol
+import Proofs.Storage2
 
 /-! # C04 — reversion, grade involution, conjugation and the norm follow their grade laws
 
@@ -62,5 +63,25 @@ example : ∃ (A : CMV 0 ℚ) (r : ℚ), 0 < r ∧ r * r = |mag2 0 (fun _ => (1:
     simp [revSign, tri, sgn, s, swaps, metric, pc]
     norm_num
   exact ⟨fun _ => 2, 2, by norm_num, by rw [h]; norm_num, by rw [h]; norm_num⟩
+
+end C04
+
+/-! ## storage level: the executable involutions and `M(g)` index their sign vector / mask by storage position through the
+    grade array; for any storage order `σ` they are the canonical maps conjugated by `σ` -/
+namespace C04
+variable {R : Type} [CommRing R] (n : Nat)
+
+theorem reversion_in_storage_order (σ : Equiv.Perm (Bm n)) (b2i grade : Nat → Nat)
+    (h2 : ∀ c : Bm n, b2i c.val = (σ.symm c).val) (hg : ∀ i : Bm n, grade i.val = pc n (σ i).val) (a : Array R) (i : Bm n) :
+    ((Model.Ctx.negOnePow (grade i.val * (grade i.val - 1) / 2) : Int) : R) * a.getD i.val 0
+      = rev n (fun c : Bm n => a.getD (b2i c.val) 0) (σ i) := Storage2.storage_rev n σ b2i grade h2 hg a i
+theorem grade_involution_in_storage_order (σ : Equiv.Perm (Bm n)) (b2i grade : Nat → Nat)
+    (h2 : ∀ c : Bm n, b2i c.val = (σ.symm c).val) (hg : ∀ i : Bm n, grade i.val = pc n (σ i).val) (a : Array R) (i : Bm n) :
+    ((Model.Ctx.negOnePow (grade i.val) : Int) : R) * a.getD i.val 0 = gi n (fun c : Bm n => a.getD (b2i c.val) 0) (σ i) :=
+  Storage2.storage_gi n σ b2i grade h2 hg a i
+theorem grade_projection_in_storage_order (σ : Equiv.Perm (Bm n)) (b2i grade : Nat → Nat)
+    (h2 : ∀ c : Bm n, b2i c.val = (σ.symm c).val) (hg : ∀ i : Bm n, grade i.val = pc n (σ i).val) (g : Nat) (a : Array R) (i : Bm n) :
+    (if grade i.val = g then a.getD i.val 0 else 0) = gpart n g (fun c : Bm n => a.getD (b2i c.val) 0) (σ i) :=
+  Storage2.storage_gradeProj n σ b2i grade h2 hg g a i
 
 end C04
